@@ -72,6 +72,7 @@ type c06Log struct {
 	entries []c06Entry
 	final   string // route A's final dump
 	failed  bool   // some entry failed on route A (outside the positive theorem)
+	pivot   int    // index of the first entry whose timestamp is below the maximum so far, preceded by that maximum (-1: timestamps never go back); a replica re-created right before it has lost every in-memory trace of the higher timestamp
 }
 
 // c06RespText is the canonical response of execWrite (non-hostile), without the reference model.
@@ -144,6 +145,12 @@ func c06GenLog(o *hx.Out, crng *hx.Rng, tag string, flavour int) *c06Log {
 	}
 	scratch.Close()
 	_ = os.RemoveAll(scratchDir)
+	// The entry timestamp is the wall clock of the leader that wrote the entry: after a leader change with clock
+	// skew or a clock step the committed log is NOT monotone in it. In 65% of the logs the timestamps are made
+	// adversarial: going back by 1 / by a lot, runs of equal values, 0, very large values.
+	if crng.Chance(65) {
+		ops = c06AdversarialTimestamps(o, crng, ops)
+	}
 	// pass 2: route A proper, the `seq` case of this check (no reference model)
 	runCase(o, "seq", lg.shard, false, tag, fmt.Sprintf("c06|%d", crng.U64()), func(r *runner) {
 		r.ref = nil
@@ -161,7 +168,69 @@ func c06GenLog(o *hx.Out, crng *hx.Rng, tag string, flavour int) *c06Log {
 		}
 	}
 	lg.final = res[len(res)-1]
+	lg.pivot = c06Pivot(lg.entries)
+	if lg.pivot >= 0 {
+		o.Count("log:timestamps-go-back")
+	}
 	return lg
+}
+
+// c06Pivot: the first i > 0 with ts[i] < ts[i-1] = max(ts[0..i-1]).
+func c06Pivot(es []c06Entry) int {
+	var max uint64
+	for i, e := range es {
+		if i > 0 && e.w.ts < es[i-1].w.ts && es[i-1].w.ts == max {
+			return i
+		}
+		if e.w.ts > max {
+			max = e.w.ts
+		}
+	}
+	return -1
+}
+
+func c06AdversarialTimestamps(o *hx.Out, rng *hx.Rng, ops []string) []string {
+	cur := uint64(1000 + rng.Intn(100000))
+	if rng.Chance(30) {
+		cur = 1700000000000 + uint64(rng.Intn(1000000))
+	}
+	res := make([]string, len(ops))
+	for i, op := range ops {
+		res[i] = op
+		if !strings.HasPrefix(op, "W:") {
+			continue
+		}
+		switch x := rng.Intn(100); {
+		case x < 40:
+			cur += uint64(1 + rng.Intn(20))
+		case x < 55: // equal run
+			o.Count("ts:equal")
+		case x < 67:
+			if cur > 0 {
+				cur--
+			}
+			o.Count("ts:back-by-1")
+		case x < 80:
+			cur -= uint64(rng.Intn(int(cur%1000000) + 1))
+			if rng.Chance(30) {
+				cur /= 2
+			}
+			o.Count("ts:back-by-a-lot")
+		case x < 85:
+			cur = 0
+			o.Count("ts:zero")
+		case x < 91:
+			cur = hx.Pick(rng, []uint64{1 << 63, 1<<64 - 1, 1<<63 - 1, 1<<64 - 2 - uint64(rng.Intn(100))})
+			o.Count("ts:very-large")
+		default:
+			cur = cur/2 + uint64(rng.Intn(100000))
+			o.Count("ts:jump")
+		}
+		f := strings.Split(op, ":")
+		f[2] = fmt.Sprint(cur)
+		res[i] = strings.Join(f, ":")
+	}
+	return res
 }
 
 func firstDiff(a, b string) string {
@@ -255,7 +324,7 @@ func c06RouteRestart(o *hx.Out, rng *hx.Rng, lg *c06Log) {
 	for i, en := range lg.entries {
 		rt.how = "Close+NewDB before entries " + strings.Join(pts, ",")
 		rt.entry(i, c06Apply(e.db, en.w))
-		if rng.Chance(20) {
+		if rng.Chance(20) || i+1 == lg.pivot {
 			restart(i + 1)
 		}
 	}
@@ -315,16 +384,25 @@ func c06RouteCrash(o *hx.Out, rng *hx.Rng, lg *c06Log) {
 		index[en.w.offset] = i
 	}
 	crashes := 0
+	pivotDone := false
 	for i := 0; i < len(lg.entries); {
 		rt.how = strings.Join(sched, " ")
 		rt.entry(i, c06Apply(db, lg.entries[i].w))
 		i++
-		switch x := rng.Intn(100); {
+		x := rng.Intn(100)
+		if i == lg.pivot && !pivotDone {
+			// everything up to the maximum timestamp is durable, then the process dies: the replay starts at the lower one
+			pivotDone = true
+			hx.Must(f.last.Flush())
+			sched = append(sched, fmt.Sprintf("flush@%d", i))
+			x = 25
+		}
+		switch {
 		case x < 25:
 			hx.Must(f.last.Flush())
 			sched = append(sched, fmt.Sprintf("flush@%d", i))
 			o.Count("crash:flush")
-		case x < 40 && crashes < 4:
+		case x < 40 && (crashes < 4 || i == lg.pivot):
 			// power loss: nothing written from now on is durable; the process winds down; restart
 			mem.SetIgnoreSyncs(true)
 			_ = db.Close()
@@ -366,6 +444,9 @@ func c06RouteSnapshot(o *hx.Out, rng *hx.Rng, lg *c06Log) {
 	defer src.close()
 	c06Prelude(src.db, lg)
 	cut := rng.Intn(len(lg.entries) + 1)
+	if lg.pivot >= 0 && rng.Chance(60) {
+		cut = lg.pivot
+	}
 	rt := &c06Route{o: o, lg: lg, name: "snapshot-replay"}
 	for i := 0; i < cut; i++ {
 		rt.how = "sender"
@@ -440,6 +521,7 @@ func c06ReplayLog(o *hx.Out, t []string) {
 	fmt.Sscan(t[3], &term)
 	lg := &c06Log{shard: shard, term: term, en: t[4] == "1"}
 	runCase(o, "seq", shard, false, "c06log-replay", "", func(r *runner) {
+		r.ref = nil // C12's sequential reference is not this check's
 		r.do(fmt.Sprintf("T:%d:%d", term, b2i(lg.en)))
 		r.do(fmt.Sprintf("E:%d", b2i(lg.en)))
 		for _, op := range strings.Split(t[5], ";") {
@@ -448,6 +530,7 @@ func c06ReplayLog(o *hx.Out, t []string) {
 		}
 		lg.final = r.do("D")
 	})
+	lg.pivot = c06Pivot(lg.entries)
 	rng := hx.NewRng(uint64(len(t[5])))
 	for k := 0; k < 4; k++ {
 		c06RouteRestart(o, rng.Fork(), lg)
